@@ -35,15 +35,25 @@ class PrometheusPlugin(MetricProcessor):
         """Create new plugin."""
         super().__init__("PrometheusPlugin", config)
         self.__cache = {}
+        self.__made_for = {}
         self.__lock = threading.Lock()
 
-    def __check_cache(self, namespace, name, type_name, from_default):
+    def __check_cache(self, namespace, name, type_name, label_keys, unit, from_default):
         # the namespace is part of the name of a metric: 'orders' of namespace 'shop' is not 'orders' of 'billing'
         cache_key = f'{namespace}_{name}_{type_name}'
-        if cache_key in self.__cache:
+        # the names of the labels and the unit are part of what prometheus registers: a metric that is defined again
+        # with another label, or another unit (the tracepoint was edited), is not the one we have
+        made_for = (tuple(label_keys), unit)
+        if cache_key in self.__cache and self.__made_for.get(cache_key) == made_for:
             return self.__cache[cache_key]
+        # the registry takes a name once: what we have registered under this name before - with other labels, another
+        # unit, as another type - goes, the definition we are given now is the one that counts
+        for key in [key for key in self.__cache if key.rsplit('_', 1)[0] == f'{namespace}_{name}']:
+            REGISTRY.unregister(self.__cache.pop(key))
+            self.__made_for.pop(key, None)
         default = from_default()
         self.__cache[cache_key] = default
+        self.__made_for[cache_key] = made_for
         return default
 
     def counter(self, name: str, labels: Dict[str, str], namespace: str, help_string: str, unit: str, value: float):
@@ -60,7 +70,7 @@ class PrometheusPlugin(MetricProcessor):
         try:
             with self.__lock:
                 label_keys = list(labels.keys())
-                counter: Counter = self.__check_cache(namespace, name, "counter",
+                counter: Counter = self.__check_cache(namespace, name, "counter", label_keys, unit,
                                                       lambda: Counter(name=name, documentation=help_string or "",
                                                                       labelnames=label_keys,
                                                                       namespace=namespace, unit=unit))
@@ -84,7 +94,7 @@ class PrometheusPlugin(MetricProcessor):
         try:
             with self.__lock:
                 label_keys = list(labels.keys())
-                gauge: Gauge = self.__check_cache(namespace, name, "gauge",
+                gauge: Gauge = self.__check_cache(namespace, name, "gauge", label_keys, unit,
                                                   lambda: Gauge(name=name, documentation=help_string or "",
                                                                 labelnames=label_keys,
                                                                 namespace=namespace, unit=unit))
@@ -109,7 +119,7 @@ class PrometheusPlugin(MetricProcessor):
         try:
             with self.__lock:
                 label_keys = list(labels.keys())
-                histogram: Histogram = self.__check_cache(namespace, name, "histogram",
+                histogram: Histogram = self.__check_cache(namespace, name, "histogram", label_keys, unit,
                                                           lambda: Histogram(name=name, documentation=help_string or "",
                                                                             labelnames=label_keys,
                                                                             namespace=namespace, unit=unit))
@@ -134,7 +144,7 @@ class PrometheusPlugin(MetricProcessor):
         try:
             with self.__lock:
                 label_keys = list(labels.keys())
-                summary: Summary = self.__check_cache(namespace, name, "summary",
+                summary: Summary = self.__check_cache(namespace, name, "summary", label_keys, unit,
                                                       lambda: Summary(name=name, documentation=help_string or "",
                                                                       labelnames=label_keys,
                                                                       namespace=namespace, unit=unit))
@@ -159,3 +169,4 @@ class PrometheusPlugin(MetricProcessor):
             for metric in self.__cache.values():
                 REGISTRY.unregister(metric)
             self.__cache = {}
+            self.__made_for = {}
